@@ -499,6 +499,116 @@ func runSymbolFields(p *Prog, r *Report) {
 			}
 		}
 	}
+	// BlockSymbol.Name: block type followed by every label, each written the way the user
+	// wrote it (Go-quoted, printable text kept): the workspace query matches against it
+	for _, fn := range p.Funcs {
+		if fn.Decl == nil || fn.Decl.Recv == nil || !strings.HasSuffix(fn.Pkg.PkgPath, "hcl-lang/decoder") || fn.Body == nil || bareFuncName(fn) != "Name" {
+			continue
+		}
+		info := fn.Info()
+		rt := info.TypeOf(fn.Decl.Recv.List[0].Type)
+		if !typeIs(derefType(rt), "hcl-lang/decoder", "BlockSymbol") || len(fn.Decl.Recv.List[0].Names) != 1 {
+			continue
+		}
+		ng++
+		recv := info.ObjectOf(fn.Decl.Recv.List[0].Names[0])
+		usesType := false
+		var labelVars []types.Object
+		fullRange := false
+		ast.Inspect(fn.Body, func(m ast.Node) bool {
+			switch x := m.(type) {
+			case *ast.SelectorExpr:
+				if id, ok := x.X.(*ast.Ident); ok && info.ObjectOf(id) == recv && canonId(x.Sel.Name) == "Type" {
+					usesType = true
+				}
+			case *ast.RangeStmt:
+				if sel, ok := ast.Unparen(x.X).(*ast.SelectorExpr); ok && canonId(sel.Sel.Name) == "Labels" {
+					if id, ok := sel.X.(*ast.Ident); ok && info.ObjectOf(id) == recv {
+						fullRange = true
+						if vid, ok := x.Value.(*ast.Ident); ok && vid.Name != "_" {
+							labelVars = append(labelVars, info.ObjectOf(vid))
+						}
+					}
+				}
+			}
+			return true
+		})
+		var probs []string
+		if !usesType {
+			probs = append(probs, "the block type is not part of the name")
+		}
+		if !fullRange || len(labelVars) == 0 {
+			probs = append(probs, "the name is not built from a loop over all of the block's labels")
+		}
+		ast.Inspect(fn.Body, func(m ast.Node) bool {
+			call, ok := m.(*ast.CallExpr)
+			if !ok {
+				return true
+			}
+			takes := false
+			for _, a := range call.Args {
+				if id, ok := ast.Unparen(a).(*ast.Ident); ok {
+					for _, lv := range labelVars {
+						if info.ObjectOf(id) == lv {
+							takes = true
+						}
+					}
+				}
+			}
+			if !takes {
+				return true
+			}
+			full := calleeFull(info, call)
+			switch full {
+			case "strconv.Quote":
+				return true
+			case "fmt.Sprintf", "fmt.Fprintf":
+				fi := 0
+				if full == "fmt.Fprintf" {
+					fi = 1
+				}
+				if fi < len(call.Args) {
+					if f, ok := constString(info, call.Args[fi]); ok {
+						bad := ""
+						for i := 0; i+1 < len(f); i++ {
+							if f[i] == '%' {
+								j := i + 1
+								for j < len(f) && strings.ContainsRune("+-# 0123456789.", rune(f[j])) {
+									j++
+								}
+								if j < len(f) && f[j] != 'q' && f[j] != '%' || j-i > 1 {
+									bad = f[i : j+1]
+								}
+								i = j
+							}
+						}
+						if bad == "" {
+							return true
+						}
+						probs = append(probs, "a label is formatted with "+bad+" (labels are Go-quoted with %q)")
+						return true
+					}
+				}
+				probs = append(probs, "a label is formatted with a non-constant format")
+			default:
+				if f := calleeOf(info, call); f != nil {
+					if sig, ok := f.Type().(*types.Signature); ok && sig.Recv() != nil {
+						if rn := namedOf(derefType(sig.Recv().Type())); rn != nil && rn.Obj().Pkg() != nil && rn.Obj().Pkg().Path() == "strings" && rn.Obj().Name() == "Builder" {
+							probs = append(probs, "a label is written without Go-quoting (the reviewed name quotes every label with %q)")
+							return true
+						}
+					}
+				}
+				probs = append(probs, "a label passes through "+full+", which does not keep the text as written (the reviewed name quotes labels with %q / strconv.Quote only)")
+			}
+			return true
+		})
+		if len(probs) == 0 {
+			r.Add("E10.getters", fn.Name, "block type and quoted labels", p.Pos(fn.Decl), OK, "the name is the block type followed by every label, Go-quoted", true)
+		} else {
+			r.Add("E10.getters", fn.Name, "block type and quoted labels", p.Pos(fn.Decl), Violated, strings.Join(dedup(probs), "; "), true)
+		}
+	}
 	r.Counts["E10.getters"] = ng
 	r.ExpectMin("E10.getters", ng, 7)
 	r.Clauses = append(r.Clauses, "E10 every symbol literal takes name, kind, range and nested symbols from the syntax item of its own loop iteration, and the accessors return those fields")
